@@ -7,6 +7,7 @@ import (
 	"path/filepath"
 	"sort"
 	"strings"
+	"sync/atomic"
 	"testing"
 	"time"
 
@@ -18,9 +19,20 @@ import (
 	"verif/kit"
 )
 
-func TestMain(m *testing.M)   { kit.Main(m, "C20") }
-func TestProps(t *testing.T)  { kit.RunAll(t) }
-func TestReplay(t *testing.T) { kit.ReplayAll(t) }
+func TestMain(m *testing.M) { kit.Main(m, "C20") }
+func TestProps(t *testing.T) {
+	kit.RunAll(t)
+	if atomic.LoadInt64(&nBursts) > 0 {
+		kit.Extra(burstSummary()) // how many concurrent-reader bursts this shard ran
+	}
+}
+
+func TestReplay(t *testing.T) {
+	// reproducing an overlap of concurrent readers is a matter of chance: a ReaderBurst
+	// replay re-runs its schedule (fresh pool each time) until it fails, up to 60 times
+	burstAttempts = 60
+	kit.ReplayAll(t)
+}
 
 // ---------------------------------------------------------------------------------
 // case data
